@@ -125,7 +125,69 @@ def check_match(text, vals, seed, edits=True):
                 pass
             except Exception as e:  # noqa: BLE001
                 return "program with %s raises %r instead of TemplateError" % (name, e)
+    # the same program OBJECT edited in place after it has been matched once (a result remembered per object
+    # would still be served), then restored and matched again
+    i = rng.randrange(len(prog._operations))
+    old = prog._operations[i]["op"]
+    prog._operations[i]["op"] = old + "X"
+    with core.quiet():
+        try:
+            match_template(t, prog)
+            return "the matched program edited in place (another gate at operation %d) is still accepted" % i
+        except TemplateError:
+            pass
+        except Exception as e:  # noqa: BLE001
+            return "the matched program edited in place raises %r instead of TemplateError" % (e,)
+    prog._operations[i]["op"] = old
+    with core.quiet():
+        try:
+            match_template(t, prog)
+        except Exception as e:  # noqa: BLE001
+            return "the program restored after an in-place edit no longer matches: %r" % (e,)
     return None
+
+
+def check_tdm_match(text_t, text_p, want):
+    """tdm programs: a bare {parameter} is matched by the p-array standing in its place, also when the
+    parameter occurs several times"""
+    from blackbird.utils import match_template
+    t = core.impl_loads(text_t)
+    p = core.impl_loads(text_p)
+    if t[0] != "ok" or p[0] != "ok":
+        return "tdm template or program refused: %r %r" % (t[1], p[1])
+    with core.quiet():
+        try:
+            res = match_template(t[1], p[1])
+        except Exception as e:  # noqa: BLE001
+            return "matching a tdm template against a program with p-arrays in its parameters' places raises %r" % (e,)
+    for k, rows in want.items():
+        if k not in res:
+            return "parameter %s is not returned (%r)" % (k, sorted(res))
+        if np.asarray(res[k]).tolist() != rows:
+            return "parameter %s is matched to %r, the array in its place is %r" % (k, res[k], rows)
+    return None
+
+
+def gen_tdm_match(rng):
+    npar = rng.randrange(1, 3)
+    pars = rng.sample(["phi", "r", "al", "x"], npar)
+    arrs = {}
+    decl = ""
+    for k, pn in enumerate(pars):
+        rows = [[rng.randrange(1, 9) / 2 for _ in range(rng.randrange(2, 4))]]
+        arrs[pn] = ("p%d" % k, rows)
+        decl += "float array p%d =\n    %s\n" % (k, ", ".join(repr(v) for v in rows[0]))
+    ops_t, ops_p = "", ""
+    for j in range(rng.randrange(2, 6)):
+        pn = rng.choice(pars)
+        g = rng.choice(["Rgate", "Sgate", "Dgate", "MeasureHomodyne"])
+        extra = rng.choice(["", ", 0.5"])
+        m = rng.randrange(0, 3)
+        ops_t += "%s({%s}%s) | %d\n" % (g, pn, extra, m)
+        ops_p += "%s(%s%s) | %d\n" % (g, arrs[pn][0], extra, m)
+    head = "name t\nversion 1.0\ntype tdm (temporal_modes=2)\n\n"
+    used = {pn for pn in pars if "{%s}" % pn in ops_t}
+    return head + ops_t, head + decl + ops_p, {pn: arrs[pn][1] for pn in used}
 
 
 def structural_edits(prog, rng):
@@ -166,6 +228,8 @@ def structural_edits(prog, rng):
 
 
 def replay(ctx, data):
+    if data.get("kind") == "tdm_match":
+        return check_tdm_match(data["template"], data["program"], data["want"])
     if data.get("kind") == "match":
         return check_match(data["text"], data["vals"], data["seed"])
     return oracles.generic_replay(data)
@@ -224,7 +288,7 @@ def run(ctx):
                 "instance is reordered by a random topological order of its dependency graph; oracle: "
                 "match_template succeeds, its values re-instantiate to the same arguments (1e-9) and equal the "
                 "values used, and seven single structural edits (gate, mode list, permuted mode list of a multi-mode gate, per-mode order, version, the same version number spelled differently, target); a third of the templates carry an operation with a constant array argument "
-                "raise TemplateError; model matchTemplate vs implementation; non-trivial = at least 3 operations "
+                "raise TemplateError, as does the matched program object itself once edited in place (restored, it matches again); tdm templates whose bare parameters (also repeated) are matched by the p-arrays in their places; model matchTemplate vs implementation; non-trivial = at least 3 operations "
                 "and 2 parameter occurrences; distinct by (template, values, seed)")
     n = ctx.n(300, 5000)
     corr = []
@@ -242,3 +306,10 @@ def run(ctx):
         else:
             corr.append((text, vals, seed))
     match_corr(ctx, corr)
+    for _ in range(ctx.n(60, 600)):
+        tt, tp, want = gen_tdm_match(ctx.rng)
+        ctx.count("stream:tdm-p-arrays-in-parameter-places")
+        ctx.case((tt, tp), nontrivial=tt.count("{") >= 2)
+        msg = check_tdm_match(tt, tp, want)
+        if msg:
+            ctx.violation("template matching (tdm): " + msg, {"kind": "tdm_match", "template": tt, "program": tp, "want": want})
